@@ -6,6 +6,7 @@ CONSTANTS
   MaxCopies = 1000000
   MaxSends = 1000000
   MaxTgtW = 1000000
+  MaxDeliver = 3
 CONSTRAINT Track
 INVARIANTS Conform C39_AtMostOnce C39_NoLossAfterSwitch C39_FenceClosesSource
 PROPERTIES C39_ReplayNoop C39_NonOwnerRefuses
